@@ -476,6 +476,18 @@ class CFG:
         anc = self.ancestors(a)
         return [x for x in reversed(anc) if isinstance(x, (ast.For, ast.While))]
 
+    def raise_class_of(self, n: 'Node'):
+        """Exception class if control at node n raises immediately: a raise exit, or a
+        `raise X(..)` statement.  None otherwise."""
+        if n.kind == 'raise':
+            return n.exc or '?'
+        if n.kind == 'stmt' and isinstance(n.ast, ast.Raise):
+            for s, _ in n.succ:
+                if s.kind == 'raise':
+                    return s.exc or '?'
+            return _raise_class(n.ast) or '?'
+        return None
+
     def stmt_nodes(self):
         return [n for n in self.nodes if n.kind in ('stmt', 'test', 'for', 'match', 'except')]
 
